@@ -141,6 +141,7 @@ func NewConnPipe(c net.Conn, proto ProtocolInfo) ConnPipe {
 	p := &conn{
 		c:       c,
 		proto:   proto,
+		open:    true, // so that Close works before (and during) the handshake
 		options: make(map[string]interface{}),
 	}
 
